@@ -21,6 +21,11 @@ CLAIMED = {
     "C05": ("Cache coherence invariant (CacheOK) on layer B over register/unregister/table creation/freeing/recycling/Shrink/"
             "Reset; registered filters and identical unregistered twins are probed on the real world after every replayed "
             "sequence and compared with each other and with Select.", "7 C05"),
+    "C06": ("In layer A a batch operation is the fold of the single-entity operation over the selection taken in the pre-state; "
+            "TLC checks that layer B's table-wise moves (exchangeTable, moveEntities, CopyToEnd) refine it with several source "
+            "tables, pre-filled destinations, cached and uncached filters.  Replays compare the world after every batch call with "
+            "the fold, require the callback exactly once per changed entity (never for others) and that values written through "
+            "the callback's pointers land in that entity; value and callback forms, Map and Exchange paths.", "7 C06"),
     "C07": ("Layer A locks the world exactly while a query is open or a callback runs; seeded random histories on the real "
             "world keep up to 6 (and up to 62) queries open across operations, advance and close them in arbitrary order, "
             "attempt every structural operation while locked (must panic, nothing may change), use Set / events / filter "
@@ -40,6 +45,18 @@ CLAIMED = {
             "(dead / recycled / zero handles in every checked single-entity operation, duplicate add, remove of a missing "
             "component, empty component lists, omitted or dead relation targets, batch forms); the monitor requires the panic "
             "and an identical projection, entity count and lock state afterwards.", "7 C10"),
+    "C16": ("Reset of layer A is the initial world (registries kept).  Histories with Reset at generator/driver-chosen points "
+            "continue to be validated against the specification; filter and observer objects registered before are registered "
+            "again after Reset; a disagreement is attributed to C16 iff the history after the Reset is clean on a fresh world "
+            "(differential).", "7 C16"),
+    "C17": ("Every free-list shape of a small pool (TLC, family dump) and long recycle histories (driver): dump (through JSON), "
+            "load into a fresh or a used-and-reset second world, compare Alive of every handle ever issued, and the handles "
+            "the next creations return in both worlds; handles travel through the JSON and binary codecs; binary input of "
+            "every length 0..16 except 8 must be rejected.", "7 C17"),
+    "C19": ("The monitor checks the algebra of every recorded Stats() record against the specification's world (used = alive "
+            "= sum of archetype and table sizes, per-composition counts, total = used + recycled <= capacity, distinct "
+            "archetypes, size <= capacity, memory products and sums, filter / observer / lock figures) and its equality with "
+            "the statistics of a twin world that replays the same history and is asked once.", "7 C19"),
     "C15": ("Shrink stutters on layer A while layer B's invariants keep holding after it and after every later step; "
             "capacity bounds and no-work-left after an unbounded Shrink are an action property.  Replays with Shrink at "
             "generator-chosen positions; a disagreement is attributed to C15 iff it disappears when the Shrink calls are "
